@@ -42,7 +42,7 @@ def run(ctx):
             continue
         tot = [(lid, b) for lid, b in fv.binds.items() if b["mut"] and b["val"][0] == "node" and fv.term(b["val"][1]) == L(0.0)]
         buck = [(lid, b) for lid, b in fv.binds.items() if b["mut"] and b["val"][0] == "node"
-                and fv.term(b["val"][1])[0] == "call" and fv.term(b["val"][1])[1].endswith("from_elem")]
+                and zero_vec_len(fv.term(b["val"][1]), True) is not None]
         if len(tot) != 1 or len(buck) != 1:
             ctx.fail("C16.Z", "%s:shape" % path, "total / bucket not found", fv.fn["sp"])
             continue
@@ -93,11 +93,21 @@ def sniff_rule(ctx, path):
               "(0 bytes) panics instead of producing an empty result; use first()/get(0)" % (show(fv.term(bad)) if bad else ""),
               line_of(bad) if bad else None)
     # the sniff still decides the format from the first byte = '>'
-    fmt = [n for n in fv.nodes if n.get("k") == "if" and contains(fv.term(n["cond"]), lambda s: s[0] == "call" and s[1].endswith("BufRead::fill_buf"))]
-    ok = len(fmt) == 1 and contains(fv.term(fmt[0]["cond"]), lambda s: s == L(62))
-    if ok:
-        th, el = fv.term(fmt[0]["then"]), fv.term(fmt[0].get("else"))
-        ok = th == ("ctor", "ktio::seq::SeqFormat::Fasta") and el == ("ctor", "ktio::seq::SeqFormat::Fastq")
+    # the format handed to Sequences::new is a two-way choice on the sniffed first byte: '>' -> Fasta, else Fastq
+    news = fv.calls_to("ktio::seq::Sequences::new")
+    ft = fv.term(news[0]["args"][0]) if news else ("none",)
+    fmt = [n for n in fv.nodes if n.get("k") in ("if", "match") and fv.term(n) == ft]
+    leaves = if_leaves(ft) if ft[0] == "if" else ([b for _, b in ft[2:]] if ft[0] == "match" else [])
+    ok = len(news) == 1 and contains(ft, lambda s: s[0] == "call" and s[1].endswith("BufRead::fill_buf")) \
+        and (contains(ft, lambda s: s == L(62)) or ("plit", 62) in [x for a in subterms(ft) for x in [a]]) \
+        and sorted(leaves) == sorted([("ctor", "ktio::seq::SeqFormat::Fasta"), ("ctor", "ktio::seq::SeqFormat::Fastq")])
+    if ok and ft[0] == "if":
+        # polarity: the branch taken when the byte IS '>' yields Fasta
+        c = ft[1]
+        pos_is_fasta = ft[2] == ("ctor", "ktio::seq::SeqFormat::Fasta")
+        is_eq = (c[0] == "bin" and c[1] == "==") or c[0] == "iflet"
+        is_ne = c[0] == "bin" and c[1] == "!="
+        ok = (is_eq and pos_is_fasta) or (is_ne and not pos_is_fasta)
     ctx.check("C16.S", "%s:sniff_table" % who, ok, "'>' -> Fasta, anything else -> Fastq",
               "the format sniff is no longer `first byte == '>' ? Fasta : Fastq`", line_of(fmt[0]) if fmt else fv.fn["sp"])
 
